@@ -28,7 +28,7 @@ META = {
                   "2^32, and operation sequences on long-lived Integer instances in which returned bit strings are modified in place and the same value is encoded again; "
                   "all evaluated in Coq by vm_compute) and an independent oracle of the English statement on the real code.",
     "level_note": "The model replaces the float expression int(math.log(w,2))+1 by Z.log2 w + 1; this is NOT proved, it is tied by correspondence only: exhaustively "
-                  "for w <= 2^10 (thorough 2^16), for every 2^k, 2^k-1, 2^k+1 with k <= 32 at seven offsets (negative, zero-crossing, max=0), and random widths < 2^32 "
+                  "for w <= 2^10 (thorough 2^16), for every 2^k, 2^k-1, 2^k+1 with k <= 32 at 15 offsets (negative, zero-crossing, max=0, and offsets beyond 2^53, 2^63, 10^18, 2^100 that no double represents), and random widths < 2^32 "
                   "(the float expression first goes wrong at w = 2^48-1, outside the property; the run records the sweep).  gray2bin([]) raises IndexError and "
                   "int2bin(n<0) does not terminate in the code: both are None in the model, so Gray inversion is stated for length >= 1 and int2bin for n >= 0 "
                   "(Integer never has 0 bits and encode is only given value >= min).  The model is functional: that encode/rand/the conversions hand out fresh lists and leave their "
@@ -352,9 +352,16 @@ def conv_sharing(ctx, fname, args, frame):
 # ----------------------------------------------------------------------------
 # case generation (real code runs here)
 # ----------------------------------------------------------------------------
+# the property bounds the WIDTH (< 2^32), not the offset: bounds far beyond 2^53 (not representable as doubles), 2^63, 10^18, 2^100
+HUGE_OFFS = [(1 << 53) + 1, (1 << 53) - 1, -(1 << 63) - 5, 10 ** 18 + 1, 1 << 100, -(1 << 100) - 7, -(10 ** 18) - 1001, -(1 << 53) - 9]
+HUGE_RANGES = [((1 << 53) - 1, (1 << 53) + 1), ((1 << 53) + 1, (1 << 53) + 9), (-(1 << 63) - 5, -(1 << 63) + 5), (10 ** 18 + 1, 10 ** 18 + 1000),
+               (1 << 100, (1 << 100) + (1 << 20) + 3), (-(1 << 53) - 1, -(1 << 53) + 1), (-(1 << 53) - 9, -(1 << 53) - 1), (-(10 ** 18) - 1000, -(10 ** 18) - 1),
+               (-(1 << 100) - (1 << 20) - 3, -(1 << 100)), ((1 << 63) - 3, (1 << 63) + 4), (-(1 << 31) + 1, (1 << 31) - 3), ((1 << 64) + 1, (1 << 64) + 130)]
+
+
 def offsets(w):
-    """min values: zero-based, zero-crossing, max = 0, all-negative, small positive, large positive, large negative"""
-    return [0, -(w // 2) - 1, -w, -w - 5, 1, 12345, -(1 << 31)]
+    """min values: zero-based, zero-crossing, max = 0, all-negative, small positive, large positive, large negative, then offsets beyond 2^53 / 2^63 / 2^100"""
+    return [0, -(w // 2) - 1, -w, -w - 5, 1, 12345, -(1 << 31)] + HUGE_OFFS
 
 
 def nbits_case(mn, mx):
@@ -375,7 +382,7 @@ def run(ctx):
     meta = []
     wmax = ctx.scale(1 << 10, 1 << 16)
     for w in range(1, wmax + 1):
-        mn = offsets(w)[w % 7]
+        mn = offsets(w)[w % len(offsets(w))]
         lit, nb = nbits_case(mn, mn + w)
         lits.append(lit); meta.append((mn, mn + w)); ctx.count()
         if nb != w.bit_length():
@@ -390,6 +397,10 @@ def run(ctx):
                 lit, nb = nbits_case(mn, mn + w)
                 lits.append(lit); meta.append((mn, mn + w)); ctx.count(); nb_pow += 1
                 ctx.mark(("nbits-boundary", k, d, mn))
+    for mn, mx in HUGE_RANGES:
+        lit, nb = nbits_case(mn, mx)
+        lits.append(lit); meta.append((mn, mx)); ctx.count()
+        ctx.mark(("nbits-huge-offset", mn, mx))
     nrand = ctx.scale(600, 20000)
     for _ in range(nrand):
         w = rng.randrange(1, 1 << rng.randrange(1, 33))
@@ -400,7 +411,7 @@ def run(ctx):
     for mn, mx in [(0, 0), (5, 5), (-3, -3), (1, 0), (7, -7), (1 << 40, 1 << 40)]:
         lit, nb = nbits_case(mn, mx)   # rejected by the constructor (math domain error): None on both sides
         lits.append(lit); meta.append((mn, mx)); ctx.count(); nrej += 1
-    dist["nbits"] = {"exhaustive_widths_upto": wmax, "pow2_boundary_cases(k<=32, d in -1,0,1, 7 offsets)": nb_pow, "random_widths_below_2^32": nrand, "rejected_ranges": nrej}
+    dist["nbits"] = {"exhaustive_widths_upto": wmax, "pow2_boundary_cases(k<=32, d in -1,0,1, 15 offsets incl. beyond 2^53/2^63/2^100)": nb_pow, "random_widths_below_2^32": nrand, "rejected_ranges": nrej}
     # informational: where the float expression first leaves Z.log2 (outside the property's 2^32 bound)
     first_bad = None
     for k in range(33, 80):
@@ -436,10 +447,14 @@ def run(ctx):
     widths = sorted(set(widths))
     nstrings = 0
     nwrap = 0
+    todo = []
     for w in widths:
-        offs = [0, -(w // 2) - 1, -w - 17] if w <= 256 else [(-(w // 2) - 1, 0, -w - 17)[w % 3]]
-        for mn in offs:
-            mx = mn + w
+        offs = [0, -(w // 2) - 1, -w - 17, HUGE_OFFS[w % len(HUGE_OFFS)]] if w <= 256 else [(-(w // 2) - 1, 0, -w - 17, HUGE_OFFS[w % len(HUGE_OFFS)])[w % 4]]
+        todo += [(mn, mn + w) for mn in offs]
+    todo += [(mn, mx) for mn, mx in HUGE_RANGES if mx - mn < (1 << 13)]
+    if True:
+        for mn, mx in todo:
+            w = mx - mn
             t, err = call(Integer, mn, mx)
             if t is None:
                 ctx.violation("integer-constructor-raises", "Integer(%d,%d) raised %s" % (mn, mx, err), {"kind": "range", "min": mn, "max": mx, "exhaustive": True})
@@ -470,7 +485,7 @@ def run(ctx):
             if wraps == 0:
                 ctx.mark(("full-range", mn, mx))
             oracle_range(ctx, mn, mx, None, None, True)
-            if w in (5, 10) and mn != 0 and mn > -w:
+            if (w in (5, 10) and mn != 0 and -w < mn < 100) or (mn, mx) == HUGE_RANGES[0]:
                 ctx.sample({"range": [mn, mx], "nbits": nb, "encode(min..)": ["".join("1" if x else "0" for x in e) for e in encs[:6]],
                             "decode(all strings)": decs[:16]})
     dist["exhaustive_ranges"] = {"widths": "1..%d and 2^k,2^k+-1 for k<=%d" % (ctx.scale(64, 256), ctx.scale(10, 13)), "ranges": len(meta),
@@ -491,7 +506,8 @@ def run(ctx):
         for d in (-1, 0, 1):
             w = (1 << k) + d
             if w < (1 << 32):
-                wide.append((offsets(w)[(k + d) % 7], w))
+                wide.append((offsets(w)[(k + d) % len(offsets(w))], w))
+    wide += [(mn, mx - mn) for mn, mx in HUGE_RANGES if mx - mn >= 256]
     for _ in range(ctx.scale(120, 3000)):
         w = rng.randrange(257, 1 << rng.randrange(9, 33))
         wide.append((rng.choice(offsets(w) + [rng.randrange(-(1 << 33), 1 << 33)]), w))
@@ -632,6 +648,7 @@ def run(ctx):
     frame = []
     seqs = []
     ranges5 = [(0, 5), (-3, 4), (-7, -2), (0, 16), (-100, 155), (10, 1000), (0, 1), (-1, 0), (0, 255), (0, 256), (-(1 << 31), (1 << 31) - 2)]
+    ranges5 += HUGE_RANGES
     for _ in range(ctx.scale(30, 300)):
         w = rng.randrange(1, 1 << rng.randrange(1, 13))
         ranges5.append((rng.choice([0, -(w // 2) - 1, -w - 9, 3]), w))
@@ -673,9 +690,9 @@ def run(ctx):
     ctx.coverage["input_distribution"] = dist
     ctx.coverage["correspondence_cases"] = ncorr
     ctx.coverage["exhaustive"] = False
-    ctx.rule = ("ranges: every width 1..%d at three offsets (zero-based, zero-crossing, negative) and 2^k, 2^k+-1 up to 2^%d, each with ALL values encoded and ALL "
+    ctx.rule = ("ranges: every width 1..%d at four offsets (zero-based, zero-crossing, negative, one beyond 2^53/2^63/10^18/2^100) plus fixed huge-offset ranges such as (2^53-1, 2^53+1), (-2^63-5, -2^63+5) and 2^k, 2^k+-1 up to 2^%d, each with ALL values encoded and ALL "
                 "2^nbits strings decoded; %d wider ranges below 2^32 (every 2^k, 2^k+-1, random) with sampled values/strings (ends, middle, around max-min, all-ones, random); "
-                "nbits for every width <= %d, all 2^k/2^k+-1 (k<=32) x 7 offsets, random; conversions on all strings of length <= %d and random longer ones.  "
+                "nbits for every width <= %d, all 2^k/2^k+-1 (k<=32) x 15 offsets (incl. beyond 2^53, 2^63, 2^100), random; conversions on all strings of length <= %d and random longer ones.  "
                 "plus operation sequences on long-lived instances (returned lists modified in place, value re-encoded, rand).  non-trivial & distinct = (range, string) pairs that take the wrap-around branch, operation sequences, ranges whose strings all map directly, nbits boundary cases "
                 "(k, +-1, offset), wide ranges, conversion inputs of length >= 2; each counted once by its full input"
                 % (ctx.scale(64, 256), ctx.scale(10, 13), len(wide), wmax, kmax))
